@@ -3,6 +3,7 @@ import WrglModel.Model.Sorter
 import WrglModel.Model.Encoding
 import WrglModel.Spec.Sorter
 import WrglModel.Spec.TableInv
+import WrglModel.Model.Producers
 import WrglModel.Gen.Facts
 open Lean
 namespace Wrgl.Drv
@@ -212,7 +213,9 @@ def handleC03 (op : String) (input impl : Json) : Except String Json := do
       -- model side: the model's table must satisfy the same invariant and coincide on rows/tblIdx
       let m := ingestTable (refSort i.pk) bs Facts.addRowMaxCell i.runSize i.columns i.pk i.rows
       let dup := (distinctKeys i.pk i.rows).length != i.rows.length
-      let agree := match m with
+      -- the model of the repository's own diagnosis (Model/Producers.lean) must say what doctor said
+      let diagAgree := (diagnose ft).isNone == issues.isEmpty || !t.problems.isEmpty || t.numIdx != t.blocks.length
+      let agree := diagAgree && match m with
         | .ok ms => dup || (ms.blocks == ft.blocks && ms.tblIdx == ft.tblIdx && ms.rowsCount == ft.rowsCount)
         | _ => false
       return reply (jRes jStored m) agree viol
